@@ -45,8 +45,8 @@ ASSUMPTIONS = [
     "stopping inequalities are the ones documented in the two _solve methods, recomputed from convergence_history and the options",
 ]
 FLOORS = {
-    "quick": {"mass_balance": 1500, "distance_is_cost_of_flux": 1500, "status_honest": 400, "fault:not_converged": 2000, "fault:last_valid_iterate": 2000, "fault:depth:backend": 1000, "fault:depth:after_update": 1000, "monitoring_active": 1500},
-    "thorough": {"mass_balance": 12000, "distance_is_cost_of_flux": 12000, "status_honest": 3800, "fault:not_converged": 16000, "fault:last_valid_iterate": 16000, "fault:depth:backend": 8000, "fault:depth:after_update": 8000, "monitoring_active": 12000},
+    "quick": {"mass_balance": 1500, "distance_is_cost_of_flux": 1500, "status_honest": 400, "fault:not_converged": 2000, "fault:last_valid_iterate": 2000, "fault:depth:backend": 1000, "fault:depth:after_update": 1000, "fault:depth:backend_returns_nan": 1000, "monitoring_active": 1500},
+    "thorough": {"mass_balance": 12000, "distance_is_cost_of_flux": 12000, "status_honest": 3800, "fault:not_converged": 16000, "fault:last_valid_iterate": 16000, "fault:depth:backend": 8000, "fault:depth:after_update": 8000, "fault:depth:backend_returns_nan": 8000, "monitoring_active": 12000},
 }
 SHARD_TIMEOUT = {"quick": 1500, "thorough": 6000}
 
@@ -255,7 +255,7 @@ def run_shard(spec, R):
         # ---------------------------------------------------- fault enumeration
         hist = info["convergence_history"]["distance"]
         init_flux = None
-        for k, deep in [(kk, dd) for kk in range(0, min(n_iter_run, K) + 1) for dd in (False, True, "post")]:
+        for k, deep in [(kk, dd) for kk in range(0, min(n_iter_run, K) + 1) for dd in (False, True, "post", "nan")]:
             if k >= n_iter_run and n_iter_run >= num_iter:
                 break  # iteration k does not exist
             if k > n_iter_run - 1 and conv:
@@ -267,17 +267,18 @@ def run_shard(spec, R):
             ok, outf = R.guarded("solve_under_fault", lambda: wf(m1, m2))
             if not ok:
                 continue
-            raised = [x for x in capf.linear_calls if x["raised"]] if deep != "post" else ([1] if capf.post_fired else [])
+            raised = [x for x in capf.linear_calls if x["raised"]] if deep not in ("post", "nan") else ([1] if capf.post_fired else [])
             if not raised:
                 R.skip("fault_position_not_reached")
                 continue
             R.event("run", case=c["id"], fault=k, linear_calls=len(capf.linear_calls), swallowed=capf.swallowed, converged=bool(capf.solve_result[2]["converged"]))
-            label = f"fault@{k}" + {False: "/boundary", True: "/backend", "post": "/after_update"}[deep]
-            R.count("fault:depth:" + {False: "boundary", True: "backend", "post": "after_update"}[deep])
+            label = f"fault@{k}" + {False: "/boundary", True: "/backend", "post": "/after_update", "nan": "/backend_returns_nan"}[deep]
+            R.count("fault:depth:" + {False: "boundary", True: "backend", "post": "after_update", "nan": "backend_returns_nan"}[deep])
             desc = {**desc, "fault_site": label.split("/")[1]}
-            post_key = "C04:iterate_advanced_before_failure" if deep == "post" else None
+            post_key = {"post": "C04:iterate_advanced_before_failure", "nan": "C04:non_finite_iterate_accepted"}.get(deep)
             multilevel_iterative = backend in ("amg", "cg") and M.num_cells > 99
-            R.check(any("InjectedFault" in s for s in capf.swallowed) or not getattr(capf, "monitoring", False), "fault:observed_swallowed", {**desc, "k": k, "swallowed": capf.swallowed})
+            if deep != "nan":
+                R.check(any("InjectedFault" in s for s in capf.swallowed) or not getattr(capf, "monitoring", False), "fault:observed_swallowed", {**desc, "k": k, "swallowed": capf.swallowed})
             df, solf, infof = capf.solve_result
             R.check(not bool(infof["converged"]), "fault:not_converged", {**desc, "k": k, "converged": bool(infof["converged"]), "number_iterations": infof["number_iterations"]},
                     key="C04:failure_reports_converged", group=grp)
